@@ -148,8 +148,9 @@ def _check(c, model, case, kwargs, before, result):
             if not (a == b or (a is None and b is None)):
                 vio("plan:fixed-or-exogenized-change-changed", f"variant {v}: change of {n} assigned {a!r}, after solve_steady {b!r}")
                 return
+        auto_names = {a_["name"] for a_ in case.get("autovalues") or []}
         for n, vals in pr.items():
-            if n in before["endogenized"]:
+            if n in before["endogenized"] or n in auto_names:
                 continue
             a, b = before["params"][n][v], vals[v]
             if not (a == b or (a != a and b != b)):
@@ -181,6 +182,18 @@ def _check(c, model, case, kwargs, before, result):
             data[q["name"]] = np.zeros_like(s)
         params = {p["name"]: float(pr[p["name"]][v]) for p in spec["params"]}
         dates = [col0 + d for d in (0, 1, 2, 5, 7, -2)]
+        # ---- !steady-autovalues: parameters defined by an expression of the steady state (drawn so that the expression is the
+        # same number at every date of the stored path)
+        for a_ in case.get("autovalues") or []:
+            got_ = float(pr[a_["name"]][v])
+            for t in dates[:4]:
+                with np.errstate(all="ignore"):
+                    want_ = float(E.evaluate(a_["rhs"], data, params, t, ufs))
+                c.event("solve_steady", "steady-autovalue", key=("autovalue", case["family"], bool(flags.is_flat), growth), nontrivial=True)
+                if not np.isfinite(want_) or not abs(got_ - want_) <= 1e-9 * (1 + abs(want_)):
+                    vio(f"solve_steady:steady-autovalue-differs:{'nonflat' if not flags.is_flat else 'flat'}",
+                        f"variant {v}: autovalue {a_['name']} is {got_!r} after solve_steady, its expression gives {want_!r} on the stored steady path at date offset {t - col0}")
+                    return
         for i, eq in enumerate(spec["teqs"] + spec["meqs"]):
             for t in dates:
                 with np.errstate(all="ignore"):
@@ -295,7 +308,30 @@ def make_case(rng):
             plan = {"swap": [[spec["tvars"][i]["name"], f"kcal{i}"]], "scale": float(np.round(rng.uniform(0.9, 1.15), 3))}
         else:
             plan = None
-    return {"kind": "steady", "family": family, "spec": spec, "steady": steady, "meta": meta, "source": rr["source"], "context": rr["context"],
+    autovalues = []
+    source_text = rr["source"]
+    if family in ("N", "G") and rng.random() < 0.35:
+        tv = spec["tvars"]
+        for k_ in range(int(rng.integers(1, 3))):
+            if family == "G":
+                tpl = meta["template"]
+                pairs = {"trend-productivity": [("y", "a", "/"), ("y", "y", "/"), ("a", "a", "/")],
+                         "nominal-real": [("p", "p", "/"), ("dp", "dp", "/")],
+                         "random-walk-drift": [("q", "z", "-"), ("z", "z", "-"), ("q", "q", "-")]}[tpl]
+                a_n, b_n, op = pairs[int(rng.integers(0, len(pairs)))]
+            else:
+                a_n = tv[int(rng.integers(0, len(tv)))]["name"]
+                b_n = tv[int(rng.integers(0, len(tv)))]["name"]
+                op = str(rng.choice(["/", "-", "*"]))
+            s1, s2 = int(rng.integers(-2, 2)), int(rng.integers(-2, 2))
+            rhs = E.bin_(op, E.var(a_n, s1), E.var(b_n, s2))
+            name = f"ssav{k_}"
+            autovalues.append({"name": name, "rhs": rhs})
+            spec["params"].append({"name": name, "desc": "", "value": 0.0})
+        # (the renderer does not know the block: parameters are declared through the spec, the block is appended as text)
+        rr = M.render_source(spec, rng if lvl else None, lvl)
+        source_text = rr["source"] + "\n!steady-autovalues\n" + "".join(f"    {a_['name']} = {E.render(a_['rhs'])};\n" for a_ in autovalues)
+    return {"kind": "steady", "family": family, "spec": spec, "steady": steady, "meta": meta, "source": source_text, "context": rr["context"], "autovalues": autovalues,
             "opts": opts, "plan": plan, "nvar": int(rng.choice([1, 1, 2, 3])), "guess_distance": float(rng.choice([0.0, 0.1, 0.5])),
             "guess_seed": int(rng.integers(0, 10 ** 6)), "stale_changes": bool(rng.random() < 0.3), "solve_twice": bool(rng.random() < 0.25)}
 
